@@ -400,7 +400,8 @@ def gen_case(rnd, focus=None):
                 not any(name.lower() == x[0].lower() for v in case['views'] for x in v['vars']):
             local = rnd.random() < .4
             ia = len(case['views'])
-            va = {'name': f'TwA{ia}', 'vars': [[name, e]] if local else [], 'filter': name, 'twin': ia + 1, 'twin_var': name}
+            use = rnd.choice([name, name, name.lower(), name.upper()])       # names are case-insensitive at use
+            va = {'name': f'TwA{ia}', 'vars': [[name, e]] if local else [], 'filter': use, 'twin': ia + 1, 'twin_var': name}
             if not local:
                 case['globals'].append([name, e])
             case['views'].append(va)
@@ -479,9 +480,10 @@ def views_text(case, view_idx=None):
 
 
 def dict_defs(pairs):
+    """parse_sections' dict of variables: keyed by the lower-cased name, a re-definition replaces in place"""
     d = {}
     for n, e in pairs:
-        d[n] = e
+        d[n.lower()] = e
     return [[k, v] for k, v in d.items()]
 
 
@@ -553,17 +555,34 @@ def oracle(case, results):
     bad = []
     if 'harness_error' in main or 'analyze_error' in main:
         return [('harness', None, main)]
+    names = [v['name'] for v in case['views']]
+    dup = len(set(names)) != len(names)
     if 'parse_error' in main:
+        if dup and main['parse_error'].startswith('SectionParseError') and 'Line ' in main['parse_error']:
+            return []                      # duplicate view names are a parse error naming the line
         return [('views-file-rejected', None, main['parse_error'])]
+    if dup:
+        # results are keyed by name: accepting the file merges the views and lists / counts merchants twice
+        return [('duplicate-view-names-accepted', 'C10/duplicate-view-names-merge',
+                 {'names': names, 'observed': main.get('run')})]
     # parse_sections read the file as written
     want = {'globals': dict_defs(case['globals']),
             'views': [{'name': v['name'], 'vars': dict_defs(v['vars']), 'filter': v['filter']} for v in case['views']]}
     if main['parsed'] != want:
-        bad.append(('parse-structure', None, {'parsed': main['parsed'], 'written': want}))
-        return bad
+        def aswritten(pairs):
+            d = {}
+            for n, e in pairs:
+                d[n] = e
+            return [[k, v] for k, v in d.items()]
+        old_style = {'globals': aswritten(case['globals']),
+                     'views': [{'name': v['name'], 'vars': aswritten(v['vars']), 'filter': v['filter']} for v in case['views']]}
+        if main['parsed'] == old_style:
+            # variable names kept as written (not lower-cased): mixed-case names cannot be read back
+            bad.append(('parse-structure', 'C10/mixed-case-variable-unreachable', {'parsed': main['parsed'], 'expected': want}))
+        else:
+            bad.append(('parse-structure', None, {'parsed': main['parsed'], 'written': want}))
+            return bad
     ms = bm_order(case)
-    names = [v['name'] for v in case['views']]
-    dup = len(set(names)) != len(names)
     run = main['run']
     own = main.get('own_true', {})
     if 'error' in run:
@@ -686,6 +705,7 @@ Definition C_ (f : string) (a : list expr) := ECall (Some f) a.
 (* the implementation's own verdicts: merchant -> (globals ok, per-view outcome) *)
 Definition table := list (string * (bool * list outcome)).
 Record tcase := { t_cfg : config; t_ms : list merchant; t_tab : table;
+                  t_accept : bool;      (* parse_sections accepted the file *)
                   t_run : option (list (string * (list string * Q))) }.
 Definition tab_row (t : table) (m : merchant) := match alookup (m_name m) t with Some r => r | None => (true, []) end.
 Fixpoint index_of (v : view) (vs : list view) (i : nat) : nat :=
@@ -736,14 +756,12 @@ Section One.
                  (combine r e))%bool
     | _, _ => false
     end.
-  (* duplicate view names make the by-name fallback ambiguous: when such a case needs the fallback at all, only
-     the pairwise verdicts are compared (counted in slot 6) *)
-  Fixpoint has_dup (l : list string) : bool := match l with [] => false | x :: r => (mem x r || has_dup r)%bool end.
-  Definition ambiguous : bool :=
-    (has_dup (map v_name (g_views cfg)) && existsb (fun p => negb (Nat.eqb (reason_ix (fst p)) 0)) pairs)%bool.
 End One.
+(* a views file with duplicate names must be rejected by both (slot 6 counts them); otherwise every verdict
+   and the final result are compared *)
 Definition check (c : tcase) : bool * list nat :=
-  ((pair_ok c && (ambiguous c || run_ok c))%bool, (counts c ++ [if ambiguous c then 1 else 0])%list%nat).
+  if parse_ok (t_cfg c) then ((t_accept c && pair_ok c && run_ok c)%bool, (counts c ++ [0])%list%nat)
+  else (negb (t_accept c), [0;0;0;0;0;0;1]%nat).
 Fixpoint failing (i : nat) (l : list tcase) : list nat :=
   match l with [] => [] | c :: r => if fst (check c) then failing (S i) r else i :: failing (S i) r end.
 Definition addl (a b : list nat) := map (fun p => (fst p + snd p)%nat) (combine a b).
@@ -837,6 +855,9 @@ def coq_case(case, main):
     tab = []
     for name, row in main.get('own_rebuilt', {}).items():
         tab.append(f"({coq_str(name)}, ({'true' if row['globals'] == 'ok' else 'false'}, [{'; '.join(coq_outcome(x) for x in row['views'])}]))")
+    if 'parse_error' in main:
+        return (f"{{| t_cfg := {{| g_vars := {coq_defs(case['globals'])}; g_views := [{views}] |}};\n   t_ms := []; t_tab := [];"
+                f" t_accept := false; t_run := None |}}")
     run = main['run']
     if 'error' in run:
         exp = 'None'
@@ -844,14 +865,15 @@ def coq_case(case, main):
         exp = 'Some [' + '; '.join(f"({coq_str(n)}, ([{'; '.join(coq_str(x) for x in mem)}], {q_lit(Fraction(tot, 64))}))"
                                    for n, mem, tot, _ in run['views']) + ']'
     return (f"{{| t_cfg := {{| g_vars := {coq_defs(case['globals'])}; g_views := [{views}] |}};\n   t_ms := [{'; '.join(mtxt)}];\n"
-            f"   t_tab := [{'; '.join(tab)}];\n   t_run := {exp} |}}")
+            f"   t_tab := [{'; '.join(tab)}];\n   t_accept := true; t_run := {exp} |}}")
 
 
 def model_check(cases, mains, name='C10', chunk=60, parallel=4):
     """-> (failing case indices | None, indices sent, error text, totals [modelled, near, root, round, mod, type])"""
     rows, idx, skipped = [], [], 0
     for i, (c, r) in enumerate(zip(cases, mains)):
-        if 'run' not in r or any(t is None for _, _, t, _ in r['run'].get('views', [])):
+        if ('run' not in r and 'parse_error' not in r) or \
+                ('run' in r and any(t is None for _, _, t, _ in r['run'].get('views', []))):
             skipped += 1
             continue
         try:
@@ -1076,7 +1098,7 @@ def main(tier):
         'impl_jobs': len(jobs), 'cases': len(cases), 'view_merchant_pairs': pair_total,
         'model_vs_impl_cases_in_coq': len(model_idx), 'modelled_pairs': modelled,
         'oracle_pairs_by_reason': dict(zip(['near-threshold', 'sqrt-arithmetic', 'round', 'modulo', 'type-outside-fragment'], totals[1:6])),
-        'duplicate_name_cases_compared_pairwise_only': totals[6],
+        'duplicate_name_files_rejected_by_both': totals[6],
         'discarded_near_threshold': totals[1],
         'law_failures_seen': law_hist, 'views_per_case': hist_views, 'merchants_per_case': hist_merch,
         'translation_failures': tfails})
